@@ -3,7 +3,7 @@ from vf.checks import progbase
 
 
 def main():
-    R, code = progbase.run("C04", quick=(8, 35), thorough=(16, 400), extra={"small_primes": True},
+    R, code = progbase.run("C04", quick=(16, 90), thorough=(32, 1200), extra={"small_primes": True},
                            require=("objects_judged", "contract_evaluations"))
     return code
 
